@@ -49,6 +49,8 @@ fn families() -> Vec<Family> {
         f("parent-index-even", vec![pi(2), LoadImm(3), Rem, pi(0), Eql]),
         // additional-data reader: empty additional data
         f("additional-data-empty", vec![LoadImm(7), BLength, pi(0), Eql]),
+        // nested loops whose bodies end at the same instruction: a counter is incremented 3 x 2 times; approves iff it reaches 6
+        f("nested-loops-count(3x2)", vec![pi(0), Loop(3, 3), Loop(2, 2), pi(1), Add, pi(6), Eql]),
     ]
 }
 
@@ -126,9 +128,9 @@ fn expected(tx: &Transaction, inputs: &[(CoinID, CoinDataHeight)], last_header: 
         let real = Covenant::from_bytes(cov).ok().and_then(|c| {
             guard(|| c.execute(tx, Some(CovenantEnv { parent_coinid: *id, parent_cdh: cdh.clone(), spender_index: i as u8, last_header })).map(|v| v.into_bool())).ok().flatten()
         });
-        if reference != real {
-            return (false, format!("input {}: reference VM {:?} and melvm {:?} disagree (C10 matter)", i, reference, real));
-        }
+        // the reference verdict is the expected one; a disagreement with melvm on the same (transaction, environment) is noted
+        // (C10 examines the interpreter in depth) and then shows up here as an acceptance that contradicts the covenant
+        let _ = real;
         if reference != Some(true) {
             return (false, format!("input {}: covenant evaluates to {:?}", i, reference));
         }
@@ -155,7 +157,7 @@ enum SigVariant {
     None,
 }
 
-fn build_spend(fams: &[Family], fx: &Fixture, assign: &[(usize, usize)], covs: CovList, sigv: SigVariant, right_data: bool) -> (Transaction, Vec<(CoinID, CoinDataHeight)>) {
+fn build_spend(fams: &[Family], fx: &Fixture, assign: &[(usize, usize)], covs: CovList, sigv: SigVariant, right_data: bool, kind: TxKind) -> (Transaction, Vec<(CoinID, CoinDataHeight)>) {
     let inputs: Vec<(CoinID, CoinDataHeight)> = assign.iter().map(|(f, j)| fx.coins[*f][*j].clone()).collect();
     let total: u128 = inputs.iter().map(|i| i.1.coin_data.value.0).sum();
     let mut cov_list: Vec<Bytes> = vec![];
@@ -180,7 +182,7 @@ fn build_spend(fams: &[Family], fx: &Fixture, assign: &[(usize, usize)], covs: C
             cov_list[0] = b.into();
         }
     }
-    let mut tx = mktx(TxKind::Normal, inputs.iter().map(|i| i.0).collect(), vec![out_t(total, Denom::Mel)], 0, cov_list, if right_data { PREIMAGE.to_vec() } else { b"wrong".to_vec() });
+    let mut tx = mktx(kind, inputs.iter().map(|i| i.0).collect(), vec![out_t(total, Denom::Mel)], 0, cov_list, if right_data { PREIMAGE.to_vec() } else { b"wrong".to_vec() });
     // signatures: slot 0 by K0 (legacy covenant), slot i by K1 for every input i under the new covenant
     let n = inputs.len();
     let mut sigs: Vec<Bytes> = vec![Bytes::new(); n];
@@ -226,10 +228,6 @@ fn build_spend(fams: &[Family], fx: &Fixture, assign: &[(usize, usize)], covs: C
 fn judge(run: &Run, fams: &[Family], fx: &Fixture, assign: &[(usize, usize)], tx: &Transaction, inputs: &[(CoinID, CoinDataHeight)], variant: &str) {
     run.transition();
     let (exp, why) = expected(tx, inputs, fx.last_header);
-    if why.contains("disagree") {
-        run.outcome("skipped:vm-disagreement(C10)");
-        return;
-    }
     let mut st = fx.state.clone();
     let got = guard(|| st.apply_tx(tx));
     run.validated();
@@ -399,8 +397,19 @@ pub fn run(run: &Run) {
                         if cv != CovList::Complete && (sv != SigVariant::Valid || !right_data) {
                             continue;
                         }
-                        let (tx, inputs) = build_spend(&fams, fx, assign, cv, sv, right_data);
+                        let (tx, inputs) = build_spend(&fams, fx, assign, cv, sv, right_data, TxKind::Normal);
                         judge(run, &fams, fx, assign, &tx, &inputs, &format!("{:?}/{:?}/data={}", cv, sv, right_data));
+                        // the covenant rule does not depend on the transaction's kind: the same spend as a faucet (balance-exempt, but
+                        // its inputs are consumed all the same), a swap, a deposit and a withdrawal (none of which names a pool here)
+                        if cv == CovList::Complete || cv == CovList::MissingFirst {
+                            for kind in [TxKind::Faucet, TxKind::Swap, TxKind::LiqDeposit, TxKind::LiqWithdraw] {
+                                if assign.len() > 2 && kind != TxKind::Faucet {
+                                    continue;
+                                }
+                                let (tx, inputs) = build_spend(&fams, fx, assign, cv, sv, right_data, kind);
+                                judge(run, &fams, fx, assign, &tx, &inputs, &format!("{:?}/{:?}/data={}/kind={}", cv, sv, right_data, kind));
+                            }
+                        }
                     }
                 }
             }
